@@ -56,7 +56,8 @@ def matcher_case(draw, tier):
             thr = draw(st.sampled_from([s, s, s + 1e-9, s - 1e-9, s + 0.5, s - 0.5]))
     if thr is None:
         thr = draw(st.sampled_from([0, 0.5, 1, 2, 0.3333, 0.75, -0.5]))
-    n_jobs = draw(st.sampled_from([1, 1, 1, 2, 3, max(len(cs["l"]), 1), len(cs["l"]) + 2, -1]))
+    n_jobs = draw(st.sampled_from([1, 1, 1, 2, 3, 7, 11, 12, 14, max(len(cs["l"]), 1),
+                                    len(cs["l"]) + 2, -1]))
     case = {"tok": tokcfg if use_tok else None, "fn": fn, "L": L, "R": R, "candset": cs,
             "threshold": thr, "op": draw(st.sampled_from(OPS6)),
             "allow_missing": draw(st.booleans()),
